@@ -1,6 +1,7 @@
 import Lean.Data.Json
 import Nanite.Model.Profile
 import Nanite.Gen.Profile
+import Nanite.Model.Legacy
 open Lean Nanite.Profile
 
 partial def toJV (j : Json) : JV :=
@@ -66,6 +67,23 @@ partial def loop (h : IO.FS.Stream) (f : File) : IO Unit := do
               | _ => ("", .s "", false))
           | _ => []
         let (f', o) := step D f (.fitParams md); IO.println (showOut o); loop h f'
+    | some "legacy" =>
+        -- {"op":"legacy","lines":[...],"floats":[tokens Python's float() accepts]}
+        let strs (k : String) : List String := match j.getObjVal? k with
+          | .ok (.arr a) => a.toList.map (fun e => e.getStr?.toOption.getD "")
+          | _ => []
+        let floats := (strs "floats").map String.toList
+        let isFloat (t : List Char) : Bool := floats.contains t
+        match Nanite.Legacy.rawDict ((strs "lines").map String.toList) with
+        | none => IO.println "err ValueError"
+        | some d =>
+            let out := d.map (fun kv =>
+              (String.ofList kv.1, match Nanite.Legacy.typed Nanite.Gen.Profile.legacyKind isFloat kv.1 kv.2 with
+                | .ok v => showJV v
+                | .error .keyError => "err KeyError"
+                | .error .indexError => "err IndexError"))
+            IO.println ("{" ++ "; ".intercalate ((sortKV out).map (fun p => p.1 ++ " => " ++ p.2)) ++ "}")
+        loop h f
     | some "file" => IO.println (showFile f); loop h f
     | some "range_type" => IO.println (storeRangeType (str "a")); loop h f
     | some "interval" =>
